@@ -19,6 +19,12 @@
   `CacheOK`: each memo field is `none` or equals the freshly computed view). The empty heap satisfies it
   and every operation preserves it, so it holds in every reachable heap.
 
+  Outside the model: `splice` with `end < start` (the code slices runs with negative offsets there; the
+  operation answers `Res.outside` without touching the heap, the driver refuses it, and the harness judges
+  such calls by the oracle alone), a `width_aware_splitlines` generator consumed lazily between other
+  operations (oracle only), attribute-dict method names outside the regenerated `Generated.dictMutators`.
+  `==` and `hash()` are operations (`Op.eq`, `Op.hash`): they fill `_unicode` of their operands.
+
   Data taken as given by an operation (and universally quantified here): the split positions of
   `split`/`splitlines`, the result strings of delegated `str` methods, `shared_atts`, the pieces the
   ChunkSplitter cuts for `width_aware_splitlines`.
@@ -29,6 +35,7 @@
   operation (`notInit`), and `C13_init_witness` proves in the model that it violates all three parts.
 -/
 import Curtsies.Proofs.Heap
+import Curtsies.Generated.Heap
 namespace Curtsies.Heap
 open Curtsies
 
@@ -296,24 +303,65 @@ theorem C13_cache_observations (u : UEnv) (h : Heap) (a : Nat) (v : FmtStr) (hI 
     obtain ⟨res, _, h', e, _, _, _, hr⟩ := run_of_ok this
     exact ⟨h', by rw [← hr]; exact e⟩
 
-/-! ### C13_guards -/
+/-! ### the heap operations return the values of the value-level models -/
 
-/-- GUARD. Item assignment raises and leaves the heap unchanged (any heap, any operand). -/
+/-- Slicing/indexing on the heap returns what the value-level `getitem` (the model the C06 theorems are
+    about) computes from the operand's value: the same error, or an object holding exactly that value.
+    (The part-level refinements for `splice` and `width_aware_slice` are `spliceParts_val`, `wasParts_val`.) -/
+theorem C13_getitem_refines (u : UEnv) (h : Heap) (a : Nat) (v : FmtStr) (idx : Index) (hI : Inv u h)
+    (ha : a < h.fmts.length) (hv : h.value a = some v) :
+    ∃ res h', runOp u (.getitem a idx) h = some (res, h') ∧
+      match Curtsies.getitem v idx with
+      | .error e => res = .err e
+      | .ok w => ∃ r, res = .refs [r] ∧ h'.value r = some w := by
+  have g := good_of_inv hI
+  have : Ok u (opCmd u (.getitem a idx)) [] h (Std u [] h fun res _ h' =>
+      match Curtsies.getitem v idx with
+      | .error e => res = .err e
+      | .ok w => ∃ r, res = .refs [r] ∧ h'.value r = some w) := by
+    refine Std.bind (getitem_val g ha hv idx) ?_
+    intro x o1 h1 g1 _ _ hx
+    refine Std.pure g1 ?_
+    cases hg : Curtsies.getitem v idx with
+    | error e => rw [hg] at hx; simp only at hx; rw [hx]; rfl
+    | ok w =>
+      rw [hg] at hx
+      obtain ⟨r, e, _, hr⟩ := hx
+      exact ⟨r, by rw [e]; rfl, hr⟩
+  obtain ⟨res, _, h', e, _, _, _, hr⟩ := run_of_ok this
+  exact ⟨res, h', e, hr⟩
+
+/-! ### C13_guards
+
+  These statements only RECORD how the model reads formatstring.py:77-87 and 720-721 (`opCmd` answers
+  `.err` for `setitem` and for the mutator names): they are immediate from the model's definition and
+  carry no weight by themselves. That the REAL `f[i] = x` and the real attribute-dict methods raise and
+  leave `str(f)` unchanged is established on every run by the tie (guard steps inside the programs) and by
+  the guard oracle, which enumerates `dir(dict)` semantically; `C13_guards_table` (Properties/C13Table.lean) connects the two: the
+  names the live `FrozenAttributes` lets through (regenerated) are exactly the ones the model lets
+  through. The operation `attsMutate` is an operation of the model only for names in
+  `Generated.dictMutators` (the driver refuses others: `get`, `keys`, `copy` … are not mutators). -/
+
+/-- GUARD (model's reading). Item assignment raises and leaves the heap unchanged. -/
 theorem C13_guards_setitem (u : UEnv) (h : Heap) (a : Nat) :
     runOp u (.setitem a) h = some (.err .otherException, h) := rfl
 
-/-- GUARD. Every in-place method of a run's attribute dict other than `__init__` raises and leaves the
-    heap unchanged. (The list of method names of `dir(dict)` that change a plain dict is computed by the
-    harness at run time; the statement holds for every name.) -/
-theorem C13_guards_partial (u : UEnv) (h : Heap) (a k : Nat) (name : String) (after : Atts) (hn : name ≠ "__init__") :
+/-- GUARD (model's reading). Every regenerated mutator name of a run's attribute dict other than
+    `__init__` raises and leaves the heap unchanged. -/
+theorem C13_guards_partial (u : UEnv) (h : Heap) (a k : Nat) (name : String) (after : Atts)
+    (_hm : name ∈ Generated.dictMutators) (hn : name ≠ "__init__") :
     runOp u (.attsMutate a k name after) h = some (.err .otherException, h) := by
   simp [runOp, run, opCmd, hn]
   exact ⟨[], rfl⟩
 
-/-- full-strength statement: every mutator name. False in the model for `__init__` (D24). -/
+/-- full-strength statement: every mutator name of the regenerated list. False in the model for
+    `__init__` (D24). -/
 def C13_guards_full_statement : Prop :=
-  ∀ (u : UEnv) (h : Heap) (a k : Nat) (name : String) (after : Atts),
+  ∀ (u : UEnv) (h : Heap) (a k : Nat) (name : String) (after : Atts), name ∈ Generated.dictMutators →
     runOp u (.attsMutate a k name after) h = some (.err .otherException, h)
+
+/-- `__init__` is one of the regenerated mutator names (so the full statement covers it). -/
+theorem C13_guards_init_listed : "__init__" ∈ Generated.dictMutators := by decide
 
 /-! ### concrete instances -/
 
@@ -356,7 +404,7 @@ theorem C13_init_witness :
 
 theorem C13_guards_full_statement_false : ¬ C13_guards_full_statement := by
   intro hf
-  have := hf u0 hW 0 0 "__init__" redNotBold
+  have := hf u0 hW 0 0 "__init__" redNotBold C13_guards_init_listed
   rw [show Op.attsMutate 0 0 "__init__" redNotBold = initOp from rfl, C13_init_witness.2.2.1] at this
   revert this
   decide +kernel
